@@ -39,6 +39,7 @@ type Config struct {
 	MapOrderRev bool
 	NoMerge     bool
 	MergeFuncs  map[string]bool
+	OneShotAll     bool // every query goes to fresh non-incremental solver processes
 	OneShotAsserts bool // decide assertions with fresh non-incremental solver processes (z3 and cvc5 side by side)
 	MonotoneRounding bool // rerr mode: add p<=q => fl(p)<=fl(q) for all pairs of rounded operations
 	IntInputsAsReal bool // real modes: verifU8/U16 inputs are integers carried as reals
@@ -116,6 +117,7 @@ type Exec struct {
 	roundings   []roundingSite
 	scopes      []int
 	defs        []*Term
+	cbrts       map[int]*Term
 	ufTables    map[*Value]*ufTable
 	ufOrder     []*ufTable
 	ufFacts     []*Term
@@ -385,7 +387,12 @@ func (e *Exec) check(extra ...*Term) Result {
 		lits = append(lits, e.pcs...)
 		lits = append(lits, e.ufFacts...)
 		lits = append(lits, extra...)
-		r := e.S.CheckWith(lits...)
+		var r Result
+		if e.Cfg.OneShotAll {
+			r, _ = e.S.OneShot(lits, nil, e.S.TimeoutMs, nil)
+		} else {
+			r = e.S.CheckWith(lits...)
+		}
 		if r != Sat || len(e.ufOrder) == 0 {
 			return r
 		}
@@ -410,6 +417,9 @@ func (e *Exec) checkVals(ts []*Term, extra ...*Term) (Result, []ModelValue) {
 	lits = append(lits, e.pcs...)
 	lits = append(lits, e.ufFacts...)
 	lits = append(lits, extra...)
+	if e.Cfg.OneShotAll {
+		return e.S.OneShot(lits, ts, e.S.TimeoutMs, nil)
+	}
 	return e.S.CheckModel(ts, lits...)
 }
 
